@@ -75,11 +75,11 @@ class Replayer:
         self.bins[key] = out
         return out
 
-    def run(self, pkgdir, harness, model, choices, params, timeout=120, race=False, extra_env=None):
+    def run(self, pkgdir, harness, model, choices, params, timeout=120, race=False, extra_env=None, schedule=None):
         """returns dict(end=, label=, observed=[...], raw=str)"""
         b = self.binary(pkgdir, race)
         rf = os.path.join(self.work, "replay_%s.json" % hashlib.sha1(json.dumps([harness, model, choices, params], sort_keys=True).encode()).hexdigest()[:12])
-        json.dump({"model": model, "choices": choices, "params": params}, open(rf, "w"))
+        json.dump({"model": model, "choices": choices, "params": params, "schedule": schedule or []}, open(rf, "w"))
         env = dict(GOENV, VERIF_REPLAY=rf, VERIF_HARNESS=harness)
         if extra_env:
             env.update(extra_env)
@@ -113,7 +113,7 @@ if __name__ == "__main__":
     h = rep["Harness"]
     pkgdir, fn = h[len(MOD) + 1:].rsplit(".", 1)
     r = Replayer()
-    o = r.run(pkgdir, fn, v["model"], v.get("choices") or {}, rep.get("Params") or {})
+    o = r.run(pkgdir, fn, v["model"], v.get("choices") or {}, rep.get("Params") or {}, schedule=v.get("schedule"))
     print(json.dumps({k: o[k] for k in o if k != "raw"}, indent=1))
     print(o["raw"][-1500:])
     r.close()
